@@ -932,6 +932,7 @@ func Run(c *fw.Ctx) {
 	}
 	c.Scope("c:modifier-lists", "alphabet", an, "max_list_length", maxLen, "lists_per_input", lists, "inputs", in, "cases", pc.load(),
 		"oracle", "library builder(in, ms...) == reference fold(ms, library builder(in)) on every header field and the whole option map; xid compared where the builder or a modifier fixes it")
+	ord += runHistories(c, ord)
 	c.Assume("reference rules: DESIGN.md Appendix E (only what the statement says; a builder may add further options)",
 		"an input option present with an empty value may be echoed empty or omitted (DESIGN §8a-3)",
 		"net.IP forms: nil ≡ 0.0.0.0, 4-byte ≡ IPv4-mapped 16-byte (what ToBytes writes)",
